@@ -197,7 +197,13 @@ def _val_digest(v, keep, depth=0):
     """value digest of one constructor parameter; sub-estimators by identity (their own parameters appear under their own deep key)"""
     if hasattr(v, "get_params") and not isinstance(v, type):
         keep.append(v)
-        return ("est", type(v).__name__, id(v))
+        # a component handed over as a constructor argument stays what it was: same object, same attribute names (fitting it in place instead
+        # of a clone adds learned attributes), same fitted flag
+        try:
+            names = tuple(sorted(vars(v)))
+        except TypeError:
+            names = ()
+        return ("est", type(v).__name__, id(v), names, bool(getattr(v, "_is_fitted", False)))
     if isinstance(v, (list, tuple)):
         return (type(v).__name__,) + (tuple(_val_digest(x, keep, depth + 1) for x in v) if depth < 5 else (len(v),))
     if isinstance(v, dict):
@@ -233,6 +239,14 @@ def _same_param(a, b):
         if isinstance(a, (np.ndarray, pd.Series, pd.DataFrame, pd.Index)) or isinstance(b, (np.ndarray, pd.Series, pd.DataFrame, pd.Index)):
             return type(a) is type(b) and np.array_equal(np.asarray(a), np.asarray(b))
         return bool(a == b)
+    except Exception:  # noqa
+        return False
+
+
+def _sklearn_composite(est):
+    try:
+        from sklearn.pipeline import FeatureUnion, Pipeline
+        return isinstance(est, (Pipeline, FeatureUnion))
     except Exception:  # noqa
         return False
 
@@ -466,7 +480,8 @@ def install_estimator_contracts():
                 REC.record("C04", "fit.returns-self", out is self, "fit:returns-not-self:" + cname, "fit did not return the estimator itself")
                 REC.record("C04", "fit.sets-is_fitted", bool(getattr(self, "is_fitted", True)), "fit:is_fitted-not-set:" + cname, "is_fitted false after fit")
                 after = _params_snapshot(self)
-                if before is not None and after is not None:
+                if before is not None and after is not None and not _sklearn_composite(self):
+                    # (scikit-learn's Pipeline / FeatureUnion fit their steps in place by design, also under the package's subclasses: not judged)
                     changed = params_changed(before, after)
                     REC.record("C04", "fit.params-unchanged", not changed, "fit:changes-constructor-parameter:%s:%s" % (cname, ",".join(changed)),
                                "fit changed constructor parameter(s) %s" % changed)
